@@ -388,8 +388,8 @@ def run_shard(ctx, spec):
 
 
 def plan(tier, seed):
-    n = 2400 if tier == "quick" else 40000
-    m = 1200 if tier == "quick" else 20000
+    n = 20000 if tier == "quick" else 200000
+    m = 10000 if tier == "quick" else 100000
     return [("spans", n // 16, i) for i in range(16)] + [("snippets", m // 16, i) for i in range(16)]
 
 
